@@ -49,6 +49,10 @@ class MemberObj:
     kind: str   # classmethod | staticmethod | method | property | classproperty | attr
 
 
+class AttrObj(dict):
+    """An object whose attributes are the dict's items (used to model `self` in finite evaluation)."""
+
+
 @dataclass(frozen=True)
 class EnumMember:
     cls: str
@@ -103,6 +107,10 @@ class ConstEval:
             return self._entity(self.prog.resolve_name(base, n.attr), n.attr)
         if isinstance(base, External):
             return self._entity(External(base.name + "." + n.attr), n.attr)
+        if isinstance(base, AttrObj):
+            if n.attr in base:
+                return base[n.attr]
+            raise Undecidable(f"attribute {n.attr}")
         if isinstance(base, EnumMember):
             if n.attr == "name":
                 return base.name
@@ -227,6 +235,8 @@ class ConstEval:
                 ok = left is right or (left == right and isinstance(left, (TypeRef, ClassRef, type(None), bool)))
             elif isinstance(op, ast.IsNot):
                 ok = not (left is right or (left == right and isinstance(left, (TypeRef, ClassRef, type(None), bool))))
+            elif isinstance(op, (ast.Lt, ast.LtE, ast.Gt, ast.GtE)) and isinstance(left, (int, float)) and isinstance(right, (int, float)):
+                ok = {ast.Lt: left < right, ast.LtE: left <= right, ast.Gt: left > right, ast.GtE: left >= right}[type(op)]
             else:
                 raise Undecidable("compare")
             if not ok:
@@ -330,6 +340,17 @@ class ConstEval:
                 return {}
             if f.id == "len" and len(args) == 1:
                 return len(args[0])
+            if f.id in ("any", "all") and len(args) == 1:
+                return (any if f.id == "any" else all)(bool(x) for x in self._iterate(args[0]))
+            if f.id == "next" and len(args) == 1:
+                try:
+                    return next(iter(args[0]))
+                except StopIteration:
+                    raise Undecidable("StopIteration")
+            if f.id == "iter" and len(args) == 1:
+                return list(self._iterate(args[0]))
+            if f.id == "bool" and len(args) == 1:
+                return bool(args[0])
             if f.id == "str" and len(args) == 1 and isinstance(args[0], (str, int)):
                 return str(args[0])
             if f.id == "getattr" and len(args) >= 2 and isinstance(args[0], ClassRef) and isinstance(args[1], str):
@@ -348,6 +369,19 @@ class ConstEval:
             if isinstance(recv, str) and f.attr in ("lower", "upper", "strip", "replace", "startswith", "endswith", "split"):
                 return getattr(recv, f.attr)(*args)
         raise Undecidable("call")
+
+
+def run_block(ev: ConstEval, stmts):
+    """Execute simple statements (Name = expr; if/else with decidable tests) in ev.env."""
+    for st in stmts:
+        if isinstance(st, ast.Assign) and len(st.targets) == 1 and isinstance(st.targets[0], ast.Name):
+            ev.env[st.targets[0].id] = ev.ev(st.value)
+        elif isinstance(st, ast.If):
+            run_block(ev, st.body if ev.ev(st.test) else st.orelse)
+        elif isinstance(st, ast.Expr) and isinstance(st.value, ast.Constant):
+            continue
+        else:
+            raise Undecidable(type(st).__name__)
 
 
 def local_tables(prog: Program, func: FuncInfo):
